@@ -222,6 +222,10 @@ impl P {
 }
 
 fn opt(s: &str) -> Option<String> {
+    // a loop variable that is present but has the empty name (the compiler has to refuse it)
+    if s == "<empty>" {
+        return Some(String::new());
+    }
     if s.is_empty() {
         None
     } else {
@@ -271,6 +275,8 @@ pub fn to_card(c: &C) -> Card {
             // non-zero reals far below any tolerance (only their truthiness is specified)
             "tiny" => 2f64.powi(-60),
             "-tiny" => -(2f64.powi(-200)),
+            // i * 2^-60: distinct reals closer to each other than any tolerance (equality, ordering and truthiness are specified)
+            "sm" => c.i as f64 * 2f64.powi(-60),
             _ => dyadic_to_f64(c.i, c.e),
         }),
         "StringLiteral" => CardBody::StringLiteral(c.s.clone()),
@@ -326,6 +332,11 @@ pub fn real_to_json(r: f64) -> J {
     }
     if r == 0.0 {
         return json!({"t":"real","i":0,"e":0,"s":""});
+    }
+    // k * 2^-60 with a small k that is not an ordinary modelled dyadic (see the "sm" literal)
+    let scaled = r * 2f64.powi(60);
+    if r.abs() < 2f64.powi(-40) && scaled.fract() == 0.0 && scaled.abs() < (1u64 << 20) as f64 {
+        return json!({"t":"real","i": scaled as i64,"e":0,"s":"sm"});
     }
     let bits = r.to_bits();
     let sign: i128 = if bits >> 63 == 1 { -1 } else { 1 };
